@@ -90,9 +90,29 @@ def rule_carry(ctx, prog, chk, A):
                 a, k = ir.peel(fn, r[2]), ir.peel(fn, r[3])
                 if isinstance(a, list) and a[0] == "v" and isinstance(k, list) and k[0] == "i":
                     carry[a[1]] = (k[1], l[1], el)
-        for s in digit:
-            if s not in carry or digit[s][0] != (1 << carry[s][0]) - 1:
-                continue
+        # second idiom: the sum of bytes is assigned to a variable that is stored back whole (`state[i] = s`), the carry being
+        # derived some other way (a comparison with an operand, say): the variable is the accumulator all the same
+        accs = set(s for s in digit if s in carry and digit[s][0] == (1 << carry[s][0]) - 1)
+        stored = set()
+        summed = set()
+        for el in fn.all_elements():
+            for sub in ir.walk(fn, el.e):
+                if sub[0] == "=":
+                    l = ir.strip_casts(sub[1])
+                    r = ir.peel(fn, sub[2])
+                    if isinstance(l, list) and l[0] == "x" and isinstance(r, list) and r[0] == "v":
+                        stored.add(r[1])
+                tgt = rhs = None
+                if sub[0] == "d" and sub[2] is not None:
+                    tgt, rhs = sub[1], sub[2]
+                elif sub[0] == "=" and ir.strip_casts(sub[1])[0] == "v":
+                    tgt, rhs = ir.strip_casts(sub[1])[1], sub[2]
+                if tgt is not None:
+                    r = ir.peel(fn, rhs)
+                    if isinstance(r, list) and r[0] == "b" and r[1] == "+" and any(isinstance(x, list) and x and x[0] == "x" for x in ir.walk(fn, r)):
+                        summed.add(tgt)
+        accs |= (stored & summed)
+        for s in sorted(accs):
             # every assignment of the accumulator
             for (fname, eid, v), val in A.narrowings.items():
                 if fname != fn.name or v != s:
@@ -565,11 +585,130 @@ def rule_source(ctx, prog, chk):
     return n
 
 
+# ---------------------------------------------------------------------- DRBG-CLAMP / HASHGEN-INC / RAND-FILL
+def rule_clamp(ctx, prog, chk):
+    """DRBG-CLAMP: inside the generator no length parameter is replaced by the smaller of itself and something else
+    (`len = RLC_MIN(len, cap)`): input that does not fit a buffer is an error, not something to drop - seed material cut
+    silently gives a stream that differs from Hash_DRBG's for that seed.  Expected count zero (kept alive by its miniature)"""
+    n = 0
+    for fn in scope(prog):
+        lens = [p for p in fn.params if re.search(r"(^|_)(len|size)$", fn.vars[p]["n"]) and "pc" not in fn.vars[p]]
+        if not lens:
+            continue
+        n += 1
+        bad = None
+        for el in fn.all_elements():
+            for sub in ir.walk(fn, el.e):
+                if sub[0] == "=" and ir.strip_casts(sub[1])[0] == "v" and ir.strip_casts(sub[1])[1] in lens:
+                    r = ir.peel(fn, sub[2])
+                    if isinstance(r, list) and r[0] == "?" and len(r) == 4 and mentions_var(fn, r, ir.strip_casts(sub[1])[1]):
+                        bad = bad or (el, fn.fmt(sub)[:60])
+        if bad is None:
+            chk.ok("DRBG-CLAMP", fn, "lengths", "no length parameter is clamped", line=fn.line)
+        else:
+            chk.fail("DRBG-CLAMP", fn, "lengths", "`%s` silently shortens an input length inside the generator: the bytes beyond it never reach the hash, so the state is not the one "
+                     "Hash_DRBG derives from that input" % bad[1], line=bad[0].line)
+    return n
+
+
+def rule_hashgen_inc(ctx, prog, chk):
+    """HASHGEN-INC: in the output loop of the generator (Hashgen: w_i = Hash(data); data = data + 1 mod 2^b) every hash of
+    the working copy `data` is followed, before the next hash of it and before the function returns, by the increment of
+    the *whole* working copy through the carry-exact routine (rand_inc(data, its full size, 1))"""
+    n = 0
+    for fn in scope(prog):
+        g = None
+        sites = []
+        for el in fn.all_elements():
+            for c in ir.calls_in(fn, el.e):
+                if c[1] and re.match(r"^md_map(_\w+)?$", c[1]) and len(c[2]) == 3:
+                    d = ir.base_var(fn, c[2][1])
+                    if d is not None and fn.vars[d].get("dims") and fn.vars[d]["k"] != "p" and not is_rand_state(fn, c[2][1]):
+                        # a local working copy that was filled from the generator state
+                        filled = any(cc[1] == "memcpy" and len(cc[2]) == 3 and ir.base_var(fn, cc[2][0]) == d and is_rand_state(fn, cc[2][1])
+                                     for e2 in fn.all_elements() for cc in ir.calls_in(fn, e2.e))
+                        if filled:
+                            sites.append((el, d))
+        if not sites:
+            continue
+        g = ctx.xcfg(prog, fn)
+        for el, d in sites:
+            n += 1
+            width = fn.vars[d]["dims"][0]
+            nodes = [nd for nd in g.nodes if nd.kind == "el" and nd.el is el]
+
+            def is_inc(nd, d=d, width=width):
+                if nd.kind != "el" or nd.proto:
+                    return False
+                for c in ir.calls_in(fn, nd.el.e):
+                    if c[1] and c[1].split("__")[-1] == "rand_inc" and len(c[2]) >= 2 and ir.base_var(fn, c[2][0]) == d:
+                        k = engines.key(fn, c[2][1])
+                        a0 = ir.strip_casts(fn.resolve(c[2][0]))
+                        if isinstance(k, tuple) and k[0] == "i" and k[1] == width and isinstance(a0, list) and a0[0] == "v":
+                            return True
+                return False
+
+            def is_hash(nd, d=d):
+                return nd.kind == "el" and not nd.proto and any(c[1] and re.match(r"^md_map(_\w+)?$", c[1]) and len(c[2]) == 3 and ir.base_var(fn, c[2][1]) == d for c in ir.calls_in(fn, nd.el.e))
+            starts = [m for nd in nodes for m, l in nd.succ]
+            reach = engines.reachable_from(g, starts, lambda a, b, lab: not is_inc(a))
+            bad = any((is_hash(x) and not is_inc(x)) or x is g.exit for x in reach if not is_inc(x)) and not all(is_inc(x) for x in starts)
+            # nodes reached *through* an increment are cut by the follow function; what remains reachable without one is the defect
+            nm = fn.vars[d]["n"]
+            if bad:
+                chk.fail("HASHGEN-INC", fn, nm, "after `%s` the next hash of `%s` (or the return) is reachable without rand_inc(%s, %d, ..) over the whole working copy: "
+                         "successive output blocks are not Hash(V), Hash(V + 1), ... modulo 2^(8*%d)" % (fn.fmt(el.e)[:40], nm, nm, width, width), line=el.line)
+            else:
+                chk.ok("HASHGEN-INC", fn, nm, "every hash of the working copy is followed by the carry-exact increment of all %d bytes" % width, line=el.line)
+    return n
+
+
+def rule_fill(ctx, prog, chk):
+    """RAND-FILL: a sampler that fills the digits of an integer from the generator asks for as many bytes as the digits it
+    declares in use hold (rand_bytes(a->dp, U * sizeof(dig_t)) with a->used = U): fewer bytes leave the top digit's high
+    bytes as they were (zero, or stale), which the final mask does not repair"""
+    n = 0
+    for fn in prog.all:
+        if not (fn.rfile.endswith("bn/relic_bn_util.c") or "selftest" in fn.file):
+            continue
+        for el in fn.all_elements():
+            for c in ir.calls_in(fn, el.e):
+                if c[1] != "rand_bytes" or len(c[2]) != 2:
+                    continue
+                a0 = ir.strip_casts(fn.resolve(c[2][0]))
+                X = None
+                for sub in ir.walk(fn, c[2][0], follow_refs=True):
+                    if sub[0] == "m" and sub[2] == "dp":
+                        X = ir.base_var(fn, sub[1])
+                if X is None:
+                    continue
+                used = [sub[2] for e2 in fn.all_elements() for sub in ir.walk(fn, e2.e)
+                        if sub[0] == "=" and engines.lvalue_path(fn, sub[1]) == (X, "used")]
+                if not used:
+                    continue
+                n += 1
+                U = engines.key(fn, used[-1])
+                N = engines.key(fn, c[2][1])
+                # locals that hold an expression: one step of substitution
+                for e2 in fn.all_elements():
+                    for sub in ir.walk(fn, e2.e):
+                        if sub[0] == "=" and ir.strip_casts(sub[1]) == ["v", N[1]] if (isinstance(N, tuple) and N[0] == "v") else False:
+                            N = engines.key(fn, sub[2])
+                ok = isinstance(N, tuple) and N[0] == "b" and N[1] == "*" and ((N[2] == U and N[3][0] in ("i", "sizeof")) or (N[3] == U and N[2][0] in ("i", "sizeof")))
+                if ok:
+                    chk.ok("RAND-FILL", fn, fn.vars[X]["n"], "all digits declared in use are filled from the generator", line=el.line)
+                else:
+                    chk.fail("RAND-FILL", fn, fn.vars[X]["n"], "`%s` asks the generator for `%s` bytes while %s digits are declared in use: the bytes of the top digit beyond that count are not random" % (
+                        fn.fmt(c)[:50], fn.fmt(c[2][1])[:30], fn.fmt(used[-1])[:20]), line=el.line)
+    return n
+
+
 def analyse(ctx, prog, chk):
     chk.used_program(prog)
     A, fields = make_intervals(ctx, prog)
     c = {"carry": rule_carry(ctx, prog, chk, A), "len": rule_len(ctx, prog, chk, A), "gen": rule_generate(ctx, prog, chk),
-         "seed": rule_seed(ctx, prog, chk), "samplers": rule_samplers(ctx, prog, chk), "source": rule_source(ctx, prog, chk)}
+         "seed": rule_seed(ctx, prog, chk), "samplers": rule_samplers(ctx, prog, chk), "source": rule_source(ctx, prog, chk),
+         "clamp": rule_clamp(ctx, prog, chk), "hashgen": rule_hashgen_inc(ctx, prog, chk), "fill": rule_fill(ctx, prog, chk)}
     return c
 
 
@@ -583,6 +722,9 @@ def run(ctx, chk):
     fi = intervals.field_interval(prog, "_ctx_t", "counter", intervals.ctype("int"))
     chk.note("reseed counter ctx->counter: %s" % ("written only by non-negative constants and increments: interval [%d, %d]" % fi[0] if fi else "written in ways the analysis does not model: full range of int assumed"))
     chk.floor("DRBG-CARRY", "carry-chain accumulators", c["carry"], 2)
+    chk.floor("HASHGEN-INC", "hashes of the working copy in the output loop", c["hashgen"], 1)
+    chk.floor("RAND-FILL", "samplers that fill digits from the generator", c["fill"], 1)
+    chk.floor("DRBG-CLAMP", "generator functions with length parameters", c["clamp"], 3)
     chk.floor("DRBG-LEN", "length variables of allocations/copies", c["len"], 2)
     chk.floor("DRBG-UPDATE", "steps of generate and limit sites", c["gen"], 8)
     chk.floor("DRBG-SEED", "steps of seeding", c["seed"], 4)
